@@ -54,7 +54,13 @@ def impl_digest(case):
                 got2 = ["ok", TI.compute_checksum(path, case["alg"])]
             except Exception as e:
                 got2 = ["err", type(e).__name__]
-            again = [want2, got2]
+            # the same Checksums object asked again for the same path (another spelling): the record must follow the file
+            try:
+                cs.add("blob", case["alg"], root_dir=work)
+                again_add = [list(v) for v in cs.checksums.values()]
+            except Exception as e:
+                again_add = ["err", type(e).__name__]
+            again = [want2, got2, again_add]
         return [want, got, via_add, again]
     finally:
         shutil.rmtree(work, ignore_errors=True)
